@@ -97,6 +97,21 @@ example : (∀ e ∈ [Ev.join [(['a', ' ', 'b', ':'], ['1', ':', '2'])] 5, .user
 /-- the identity order is a permutation oracle -/
 example : PermOrder Order.id := fun _ m => List.Perm.refl m
 
+/-- **A stale compaction temp file never matters after a whole life**: for every life (any events, any
+threshold, any map order), whatever a failed compaction left in `<path>.compact` (`t`), the restart recovers
+exactly what it recovers without that file — the snapshot file always exists at shutdown, and the start-up
+recovery only looks at the temp file when the snapshot is missing. With `C10_restore_exact_partial` this gives
+exact restoration in the presence of such a file. -/
+theorem C10_stale_tmp_ignored (ord : Order) (hord : PermOrder ord) (rj : Bool) (mc : Nat) (evs : List Ev) (clk : Nat)
+    (hwf : ∀ e ∈ evs, WFEv e) (t : Option Bytes) :
+    recover rj { FS.applyAll {} (life ord rj mc {} evs clk).2 with tmp := t } =
+      recover rj (FS.applyAll {} (life ord rj mc {} evs clk).2) := by
+  have hr := run_inv ord hord evs (Snap.init rj mc).1 _ hwf (init_inv rj mc)
+  obtain ⟨d, hd, _⟩ := (shutdown_inv ord hord _ _ clk hr.1).1
+  have hmain : (FS.applyAll {} (life ord rj mc {} evs clk).2).main = some d := by
+    rw [life_fresh_fs]; exact hd
+  simp [recover, hmain]
+
 /-- the one-event life of the finding: join of a member named "a\nb", shutdown -/
 def cexLife : Snap × List FsOp :=
   life Order.id false 131072 {} [.join [(['a', '\n', 'b'], ['1', ':', '2'])] 1] 1
